@@ -292,7 +292,7 @@ def startIfReady (c : Cfg) (s : State) (id i : Nat) (bypass : Bool) : List Txn :
     let next : Msg := if planned.tasks.isEmpty then .completeStage i else .startTask i 0
     [[.setStage i claimed], [.setStage i planned, .mark id, .push next]]
 
-def hStartStage (c : Cfg) (s : State) (id i retry : Nat) : List Txn :=
+def hStartStageCore (c : Cfg) (s : State) (id i retry : Nat) : List Txn :=
   let st := s.stage i
   let bypass := st.jumpBypass
   let r := Ready.evaluate (readyIn c s i bypass)
@@ -310,6 +310,11 @@ def hStartStage (c : Cfg) (s : State) (id i retry : Nat) : List Txn :=
         -- InvalidStateTransitionError → `do_mark_error` on the fresh stage
         [[.setStage i { st with hasEx := true }, .push (.completeStage i)]]
     else [[.push (.startStage i (retry + 1))]]
+
+/-- `StartStageHandler.handle`; F26 repair: once a cancel is durable nothing new starts (the CancelStage fan-out
+    settles the stage), the message is only acknowledged -/
+def hStartStage (c : Cfg) (s : State) (id i retry : Nat) : List Txn :=
+  if s.canceled && (s.stage i).status == .notStarted then [] else hStartStageCore c s id i retry
 
 def hStartTask (_c : Cfg) (s : State) (id i t : Nat) : List Txn :=
   let st := s.stage i
@@ -345,24 +350,33 @@ def processResult (c : Cfg) (st : StageSt) (id i t n : Nat) (oc : Outcome) : Lis
   | .transient => []   -- handled by the caller (needs message attempts)
   | .permanent => [[.setStage i { st with hasEx := true }, .mark id, .push (.completeTask i t (failureStatus sc .terminal))]]
 
-/-- RunTask: returns (transactions, executed?) -/
-def hRunTask (c : Cfg) (s : State) (id i t attempts : Nat) : List Txn × Bool :=
+/-- phase 1 of RunTask (guards on the state it read): `none` = the task is executed, `some txns` = it is not -/
+def runTaskGuard (s : State) (id i t : Nat) : Option (List Txn) :=
   let st := s.stage i
   let task := st.tasks.getD t default
-  if task.status != .running then ([[.mark id]], false)
-  else if s.canceled then ([[.mark id, .push (.completeTask i t .canceled)]], false)
-  else if s.wfStatus.isComplete then ([[.mark id, .push (.completeTask i t .canceled)]], false)
-  else
+  if task.status != .running then some [[.mark id]]
+  else if s.canceled then some [[.mark id, .push (.completeTask i t .canceled)]]
+  else if s.wfStatus.isComplete then some [[.mark id, .push (.completeTask i t .canceled)]]
+  else none
+
+/-- phase 2 of RunTask: commit outcome `oc` of execution `n` on the stage as RELOADED (`st`) -/
+def runTaskCommit (c : Cfg) (st : StageSt) (id i t attempts n : Nat) (oc : Outcome) : List Txn :=
+  match oc with
+  | .transient =>
+    -- `current_attempts = max(message.attempts - 1, 0)`; the retry copy carries current + 1 in its row
+    let current := attempts - 1
+    if current + 1 < c.maxAttempts then [[.mark id, .pushA (.runTask i t) (current + 1)]]
+    else [[.setStage i { st with hasEx := true }, .mark id,
+           .push (.completeTask i t (failureStatus (c.stage i) .terminal))]]
+  | _ => processResult c st id i t n oc
+
+/-- RunTask: returns (transactions, executed?) -/
+def hRunTask (c : Cfg) (s : State) (id i t attempts : Nat) : List Txn × Bool :=
+  match runTaskGuard s id i t with
+  | some txns => (txns, false)
+  | none =>
     let n := getCount s (i, t) + 1
-    let oc := outcomeAt (c.stage i) t n
-    match oc with
-    | .transient =>
-      -- `current_attempts = max(message.attempts - 1, 0)`; the retry copy carries current + 1 in its row
-      let current := attempts - 1
-      if current + 1 < c.maxAttempts then ([[.mark id, .pushA (.runTask i t) (current + 1)]], true)
-      else ([[.setStage i { st with hasEx := true }, .mark id,
-              .push (.completeTask i t (failureStatus (c.stage i) .terminal))]], true)
-    | _ => (processResult c st id i t n oc, true)
+    (runTaskCommit c (s.stage i) id i t attempts n (outcomeAt (c.stage i) t n), true)
 
 def hCompleteTask (_c : Cfg) (s : State) (id i t : Nat) (status : Status) : List Txn :=
   let st := s.stage i
@@ -407,7 +421,7 @@ def hCompleteStage (c : Cfg) (s : State) (id i : Nat) : List Txn :=
 
 def hSkipStage (c : Cfg) (s : State) (id i : Nat) : List Txn :=
   let st := s.stage i
-  if st.status != .notStarted then []
+  if st.status != .notStarted || s.canceled then []   -- F26 repair: nothing is skipped once a cancel is durable
   else
     let down := c.down i
     let cont : List Eff := if down.isEmpty then [.push (.completeWorkflow 0)] else down.map (fun d => .push (.startStage d 0))
@@ -485,7 +499,13 @@ def hJumpToStage (c : Cfg) (s : State) (id src tgt : Nat) : List Txn :=
       let target := s.stage tgt
       let tgtCount : Int := max (target.jumpCount.getD 0) newCount     -- never lower the target's own counter
       let e4 : List Eff := [.setStage tgt { resetForRetry target with jumpBypass := true, jumpCount := some tgtCount }]
-      [e1 ++ e2 ++ e3 ++ e4 ++ [.mark id, .push (.startStage tgt 0)]]
+      -- F29 repair: a forward jump completes its source and the skipped stages without `start_next`; every NOT_STARTED
+      -- stage outside the target's chain that depends on one of them is triggered in the same commit
+      let chain := tgt :: Jump.downstream g tgt
+      let done := if backward then [] else src :: skips
+      let extra := (List.range c.n).filter (fun d =>
+        (s.stage d).status == .notStarted && !chain.contains d && !done.contains d && (c.reqs d).any (fun u => done.contains u))
+      [e1 ++ e2 ++ e3 ++ e4 ++ [.mark id, .push (.startStage tgt 0)] ++ extra.map (fun d => .push (.startStage d 0))]
 
 def hSignalStage (_c : Cfg) (s : State) (id i : Nat) (persistent : Bool) : List Txn :=
   let st := s.stage i
@@ -529,6 +549,9 @@ inductive Op where
   | signal (s : Nat) (persistent : Bool)
   | crash (id : Nat) (k : Nat)  -- poll-claim, then the worker is killed after k durable commits of the delivery
   | sweep                       -- WorkflowRecovery.recover_pending_workflows (one transaction)
+  | nested (id : Nat) (inner : List Nat)
+      -- deliver RunTask row `id`; WHILE its task executes a second worker fully delivers rows `inner`;
+      -- the result is then committed on the RELOADED stage (RunTask's two phases)
   deriving Repr
 
 /-- `queue.has_pending_message_for_task(task.id)`: any queued row whose payload carries that task id -/
@@ -633,6 +656,28 @@ def step (c : Cfg) (s : State) : Op → State
   | .cancel => applyEff s (.push .cancelWorkflow)
   | .signal i p => applyEff s (.push (.signalStage i p))
   | .sweep => applyTxn s ((sweepMsgs c s).map Eff.push)
+  | .nested id inner =>
+    match s.queue.find? (fun r => r.id == id) with
+    | none => s
+    | some row0 =>
+      match row0.msg with
+      | .runTask i t =>
+        let s1 := claimRow s row0.id
+        let row := { row0 with attempts := row0.attempts + 1 }
+        if s1.processed.contains row0.id then ackRow s1 row0.id
+        else match runTaskGuard s1 row0.id i t with
+          | some _ => deliverRow c s row0 true none            -- not executed: an ordinary delivery
+          | none =>
+            let n := getCount s1 (i, t) + 1
+            let s2 := recordExec c s1 row
+            -- the second worker's deliveries (each a complete deliver + mark + ack)
+            let s3 := inner.foldl (fun st j =>
+              match st.queue.find? (fun r => r.id == j) with
+              | none => st
+              | some rj => deliverRow c st rj true none) s2
+            let txns := runTaskCommit c (s3.stage i) row0.id i t row.attempts n (outcomeAt (c.stage i) t n)
+            ackRow (applyEff (applyTxns s3 txns) (.mark row0.id)) row0.id
+      | _ => deliverRow c s row0 true none
 
 def start (c : Cfg) : State := applyEff (initState c) (.push .startWorkflow)
 
@@ -650,7 +695,8 @@ def trace (c : Cfg) : State → List Op → List State
   spec = `<wfmaxj>#<stage>#...`, stage = `reqs/JOIN/threshold/cont/failp/enabled/maxj/tasks`,
          tasks = `o.o.o+o.o` (`-` = no tasks), outcome letters as in `harness/engine.py`
   ops  = comma separated: `d<id>` deliver, `x<id>` deliver without mark+ack, `c` cancel,
-         `g<s>.<0|1>` signal stage s (persistent?), `k<id>.<n>` crash after n commits, `w` recovery sweep
+         `g<s>.<0|1>` signal stage s (persistent?), `k<id>.<n>` crash after n commits, `w` recovery sweep,
+         `n<id>.<j1>.<j2>…` deliver RunTask <id> with rows j1, j2… delivered by a second worker while the task executes
   answer = state line after every op joined by `|`, then `|A=<audit>|L=<ledger>` -/
 
 def parseOutcome (s : String) : Option Outcome :=
@@ -694,6 +740,10 @@ def parseOp (s : String) : Option Op :=
   else if s.startsWith "d" then (Parse.nat? (s.drop 1).toString).map Op.deliver
   else if s.startsWith "x" then (Parse.nat? (s.drop 1).toString).map Op.deliverNoAck
   else if s == "w" then some .sweep
+  else if s.startsWith "n" then
+    match ((s.drop 1).toString).splitOn "." with
+    | a :: rest => do pure (.nested (← Parse.nat? a) (← Parse.all? Parse.nat? rest))
+    | [] => none
   else if s.startsWith "k" then
     match ((s.drop 1).toString).splitOn "." with
     | [a, b] => do pure (.crash (← Parse.nat? a) (← Parse.nat? b))
